@@ -54,9 +54,12 @@ type NameBinding struct {
 	IsAddr bool
 }
 
-type CallLogEntry struct {
-	Args []Val
-	Res  []Val
+// CallLog is the ghost sequence of invocations of one callback: a length and,
+// per argument leaf, an array from call index to the value passed.
+type CallLog struct {
+	Len  Term
+	Args [][]Term // [arg][leaf] -> (Array Int sort)
+	ArgT []types.Type
 }
 
 type State struct {
@@ -66,8 +69,7 @@ type State struct {
 	objHeap   map[string]Term
 	mapHeap   map[string]Term
 	next      Term
-	logs      map[string][]CallLogEntry
-	logLen    map[string]Term // symbolic call-log lengths (after loop havoc)
+	logs      map[string]*CallLog
 	ghost     map[string]Val
 	held      map[string]bool
 	actions   int
@@ -78,7 +80,7 @@ type State struct {
 
 func NewState() *State {
 	return &State{cells: map[int]Val{}, sliceHeap: map[string]Term{}, objHeap: map[string]Term{}, mapHeap: map[string]Term{},
-		logs: map[string][]CallLogEntry{}, logLen: map[string]Term{}, ghost: map[string]Val{}, held: map[string]bool{}, iter: map[ssa.Value]Term{}}
+		logs: map[string]*CallLog{}, ghost: map[string]Val{}, held: map[string]bool{}, iter: map[ssa.Value]Term{}}
 }
 
 func (s *State) Clone() *State {
@@ -101,13 +103,9 @@ func (s *State) Clone() *State {
 	for k, v := range s.mapHeap {
 		n.mapHeap[k] = v
 	}
-	n.logs = make(map[string][]CallLogEntry, len(s.logs))
+	n.logs = make(map[string]*CallLog, len(s.logs))
 	for k, v := range s.logs {
-		n.logs[k] = v[:len(v):len(v)]
-	}
-	n.logLen = make(map[string]Term, len(s.logLen))
-	for k, v := range s.logLen {
-		n.logLen[k] = v
+		n.logs[k] = v
 	}
 	n.ghost = make(map[string]Val, len(s.ghost))
 	for k, v := range s.ghost {
